@@ -1,7 +1,9 @@
 package rest
 
 import (
+	"errors"
 	"net/http"
+	"sync"
 	"time"
 
 	"github.com/gorilla/websocket"
@@ -32,11 +34,26 @@ var upgraderV2 = websocket.Upgrader{
 	WriteBufferSize: 1024,
 }
 
+var errListenerClosedV2 = errors.New("websocket listener closed")
+
+// enqueue hands an event to the socket writer; a listener that has been closed reports an
+// error (the hub then drops it) instead of blocking or panicking.
+func (ml *msgListenerV2) enqueue(ev *model.JSONMonitorEventV2) error {
+	select {
+	case ml.c <- ev:
+		return nil
+	case <-ml.done:
+		return errListenerClosedV2
+	}
+}
+
 // msgListenerV2 handles messages from the msghub
 type msgListenerV2 struct {
 	hub     *msghub.Hub                    // Global message hub.
 	c       chan *model.JSONMonitorEventV2 // Queue of incoming events.
 	mailbox string                         // Name of mailbox to monitor, "" == all mailboxes.
+	done    chan struct{}                  // Closed by Close().
+	once    sync.Once
 }
 
 // newMsgListenerV2 creates a listener and registers it.  Optional mailbox parameter will restrict
@@ -46,6 +63,7 @@ func newMsgListenerV2(hub *msghub.Hub, mailbox string) *msgListenerV2 {
 		hub:     hub,
 		c:       make(chan *model.JSONMonitorEventV2, 100),
 		mailbox: mailbox,
+		done:    make(chan struct{}),
 	}
 	hub.AddListener(ml)
 	return ml
@@ -59,12 +77,10 @@ func (ml *msgListenerV2) Receive(msg event.MessageMetadata) error {
 	}
 
 	// Enqueue for websocket.
-	ml.c <- &model.JSONMonitorEventV2{
+	return ml.enqueue(&model.JSONMonitorEventV2{
 		Variant: "message-stored",
 		Header:  metadataToHeader(&msg),
-	}
-
-	return nil
+	})
 }
 
 // Delete handles a deleted message.
@@ -75,15 +91,13 @@ func (ml *msgListenerV2) Delete(mailbox string, id string) error {
 	}
 
 	// Enqueue for websocket.
-	ml.c <- &model.JSONMonitorEventV2{
+	return ml.enqueue(&model.JSONMonitorEventV2{
 		Variant: "message-deleted",
 		Identifier: &model.JSONMessageIDV2{
 			Mailbox: mailbox,
 			ID:      id,
 		},
-	}
-
-	return nil
+	})
 }
 
 // WSReader makes sure the websocket client is still connected, discards any messages from client
@@ -136,6 +150,10 @@ func (ml *msgListenerV2) WSWriter(conn *websocket.Conn) {
 	// Handle messages from hub until msgListener is closed
 	for {
 		select {
+		case <-ml.done:
+			// msgListener closed, exit
+			_ = conn.WriteMessage(websocket.CloseMessage, []byte{})
+			return
 		case event, ok := <-ml.c:
 			if err := conn.SetWriteDeadline(time.Now().Add(writeWaitV2)); err != nil {
 				slog.Warn().Err(err).Msg("Failed to set write deadline for msg")
@@ -163,15 +181,13 @@ func (ml *msgListenerV2) WSWriter(conn *websocket.Conn) {
 	}
 }
 
-// Close removes the listener registration
+// Close removes the listener registration.  It may be called more than once (reader and
+// writer both do); the event queue itself is never closed, so the hub cannot hit a closed channel.
 func (ml *msgListenerV2) Close() {
-	select {
-	case <-ml.c:
-		// Already closed
-	default:
+	ml.once.Do(func() {
+		close(ml.done)
 		ml.hub.RemoveListener(ml)
-		close(ml.c)
-	}
+	})
 }
 
 // MonitorAllMessagesV2 is a web handler which upgrades the connection to a websocket and notifies
